@@ -162,8 +162,9 @@ def exhaustive_queries(cap: int, period: int, align: int) -> list[dict]:
         qs += [{"k": "widx", "i": i, "j": j, "fill": None} for i in idx for j in idx]
         ts = [align + k * period + o for k in range(-1, 10) for o in (0, 400_000, 500_000, 600_000)]
         for a in ts[::3]:
-            for b in ts[::2]:
+            for b in ts[::4]:
                 qs.append({"k": "wts", "a": a, "b": b, "fill": None})
+        qs += [{"k": "wts", "a": a, "b": a + d, "fill": None} for a in ts for d in (200_000, 1_000_000)]
         qs += [{"k": "widx", "i": None, "j": None, "fill": "raw"}, {"k": "widx", "i": None, "j": None, "fill": g.FILL_NUM}]
         qs += [{"k": "ati", "i": i} for i in range(-cap - 1, cap + 2)]
         qs += [{"k": "att", "t": t} for t in ts]
@@ -180,7 +181,16 @@ def run(ctx: Ctx) -> None:
     for case in load_corpus():
         cases.append(case)
         outs.append(check_one(ctx, case))
-    n = ctx.budget(quick=700, thorough=12000)
+    n = ctx.budget(quick=700, thorough=9000)
+    if ctx.boost > 1:
+        # Boosted failing-input search (proof or correspondence no longer checks).  When the corpus has already
+        # produced a failing input outside the known regimes there is nothing left to search for: fall back to the
+        # plain budget.  Otherwise search harder, but stay inside the time budget of a tier.
+        known = {k.get("regime") for k in getattr(ctx, "known", []) if k.get("status") == "known"}
+        if any(v["regime"] not in known for v in ctx.violations):
+            n //= ctx.boost
+        else:
+            n = min(n, 15000)
     for i in range(n):
         rng = ctx.subrng("case", i)
         case = g.gen_case(rng)
